@@ -48,7 +48,12 @@ var intervals = []int{1, 2, 3, 7}
 // un-released lease: cleanly Released, never used, or its lease used up exactly) while
 // the current owner keeps the key; it must change nothing. Without a parked object L is
 // a no-op and the history is pruned (it equals the history without that symbol).
-var alphabet = []string{"N", "R", "S1", "S2", "S3", "S7", "B", "L"}
+// O = open the successor early: NewSequence for the next owner is called now (while the
+// current owner has not called Next yet or is mid-lease); that object is only USED once
+// the current owner was released, abandoned or crashed (B, or the replacement after a
+// crash, take the early-opened object). An O that is never consumed, or a second O while
+// one is pending, makes the history equal to a shorter one (pruned).
+var alphabet = []string{"N", "R", "S1", "S2", "S3", "S7", "B", "L", "O"}
 
 // crashAt is one injected fault at store call #Site: a crash (panic before / after
 // applying the call, the object is abandoned) or, with Fail, a store error (sentinel
@@ -81,6 +86,9 @@ type seqResult struct {
 	lateReleases             int  // Release calls on a parked (lease-less) object
 	lateReleasesOwnerActive  int  // … while the current owner holds an un-released lease
 	redundant                bool // the history contains a no-op symbol: it equals a shorter history
+	earlyOpened, earlyUsed   int  // successors constructed early / later used as the owner
+	earlyOpenedMidLease      int  // … constructed while the current owner held a lease
+	openErrors               int  // NewSequence returned an error
 	issued                   int
 	events                   int // crash / restart / release between first and last issued number
 	trace                    string
@@ -129,7 +137,7 @@ func runSeq(cs seqCase) seqResult {
 	st := faultkv.Wrap(inner, in)
 
 	interval := cs.Interval0
-	obj, _ := kvstore.NewSequence(st, seqKey, uint64(interval))
+	var obj *kvstore.Sequence
 	objNexts := 0       // successful Next calls on this object
 	objTouched := false // the object attempted Next/Release since creation or its last clean Release
 	objFailed := false  // a store call of this object returned an injected error
@@ -157,12 +165,60 @@ func runSeq(cs seqCase) seqResult {
 	regressBy := ""        // class of the first step after which the stored mark was behind last+1
 	var tr strings.Builder
 
+	// openSeq constructs a Sequence. Store calls made by the constructor are fault sites like
+	// any other: a constructor that crashes (or returns an error) means that object does not
+	// exist – the process starts again.
+	openErr := ""
+	openSeq := func(iv int) *kvstore.Sequence {
+		for tries := 0; tries < 32; tries++ {
+			var sq *kvstore.Sequence
+			var err error
+			cr, other := call(func() { sq, err = kvstore.NewSequence(st, seqKey, uint64(iv)) })
+			switch {
+			case other != "":
+				openErr = "NewSequence panicked: " + other
+				return nil
+			case cr != nil:
+				fmt.Fprintf(&tr, "open!%d%s ", cr.Site, ba(cr.After))
+				res.firedKinds = append(res.firedKinds, "Open:"+cr.Kind+":"+ba(cr.After))
+				res.crashesFired++
+				if res.failsFired > 0 {
+					res.failThenCrash = true
+				}
+				slack += int64(iv)
+				sinceLast = append(sinceLast, "crash")
+			case err != nil:
+				fmt.Fprintf(&tr, "open?(%v) ", err)
+				res.openErrors++
+				slack += int64(iv)
+				sinceLast = append(sinceLast, "store-error")
+			default:
+				return sq
+			}
+		}
+		openErr = "NewSequence did not succeed in 32 attempts"
+		return nil
+	}
+	var early *kvstore.Sequence // successor opened early, not used yet
+	earlyInterval := 0
+	// freshObject returns the object a new owner works with: the early-opened successor if there is one
+	freshObject := func() {
+		if early != nil {
+			obj, interval = early, earlyInterval
+			early = nil
+			res.earlyUsed++
+			fmt.Fprintf(&tr, "(early-opened,i=%d) ", interval)
+		} else {
+			obj = openSeq(interval)
+		}
+		objNexts, objTouched, objFailed, objPicked = 0, false, false, false
+	}
 	abandon := func(why string) {
 		if objTouched {
 			slack += int64(interval)
 		}
 		sinceLast = append(sinceLast, why)
-		obj, _ = kvstore.NewSequence(st, seqKey, uint64(interval))
+		freshObject()
 		objNexts, objTouched, objFailed, objPicked = 0, false, false, false
 		res.crashesFired++
 		if res.failsFired > 0 {
@@ -200,8 +256,25 @@ func runSeq(cs seqCase) seqResult {
 		return res
 	}
 
+	obj = openSeq(interval)
 	for i, op := range cs.Ops {
+		if openErr != "" {
+			return fail("NewSequence/failed", openErr)
+		}
 		switch {
+		case op == "O":
+			if early != nil {
+				res.redundant = true
+				tr.WriteString("O(-) ")
+				continue
+			}
+			earlyInterval = interval
+			early = openSeq(interval)
+			res.earlyOpened++
+			if objTouched {
+				res.earlyOpenedMidLease++
+			}
+			fmt.Fprintf(&tr, "O(i=%d) ", interval)
 		case op == "N":
 			var v uint64
 			var err error
@@ -320,7 +393,7 @@ func runSeq(cs seqCase) seqResult {
 			if res.failsFired > 0 {
 				res.failThenRestart = true
 			}
-			obj, _ = kvstore.NewSequence(st, seqKey, uint64(interval))
+			obj = openSeq(interval)
 			objNexts, objTouched, objFailed, objPicked = 0, false, false, false
 		case op == "L":
 			n := len(parked)
@@ -374,18 +447,25 @@ func runSeq(cs seqCase) seqResult {
 			if res.failsFired > 0 {
 				res.failThenRestart = true
 			}
-			if n > 0 {
+			if early != nil {
+				freshObject()
+			} else if n > 0 {
 				pk := parked[n-1]
 				parked = append(parked[:n-1], parked[n:]...)
 				obj, interval, objNexts = pk.seq, pk.interval, pk.nexts
 				objTouched, objFailed, objPicked = false, false, pk.nexts > 0
 				fmt.Fprintf(&tr, "B(back,i=%d) ", interval)
 			} else {
-				obj, _ = kvstore.NewSequence(st, seqKey, uint64(interval))
-				objNexts, objTouched, objFailed, objPicked = 0, false, false, false
+				freshObject()
 				fmt.Fprintf(&tr, "B(new,i=%d) ", interval)
 			}
 		}
+	}
+	if openErr != "" {
+		return fail("NewSequence/failed", openErr)
+	}
+	if res.earlyOpened > res.earlyUsed {
+		res.redundant = true // an early-opened object that is never used: same as the history without O
 	}
 	res.trace = tr.String()
 	res.sites = in.Sites()
@@ -405,6 +485,7 @@ type stats struct {
 	failsFired, failRuns, failThenCrashRuns, failThenRestartRuns           int
 	reuseAfterRelease, reuseRuns                                           int
 	lateReleases, lateReleasesOwnerActive, pruned                          int
+	earlyUsed, earlyMidLease                                               int
 	kinds                                                                  map[string]int
 	viols                                                                  []struct {
 		v  violation
@@ -427,6 +508,10 @@ func explore(c *vf.Ctx, st *stats, cs seqCase, maxCrashes int) {
 		return
 	}
 	st.lateReleases += r.lateReleases
+	st.earlyUsed += r.earlyUsed
+	if r.earlyUsed > 0 {
+		st.earlyMidLease += r.earlyOpenedMidLease
+	}
 	st.lateReleasesOwnerActive += r.lateReleasesOwnerActive
 	st.runs++
 	st.issued += r.issued
@@ -521,6 +606,8 @@ func mergeStats(c *vf.Ctx, st *stats) {
 	c.Count("late_release_calls_on_leaseless_object", st.lateReleases)
 	c.Count("late_release_calls_while_other_owner_holds_lease", st.lateReleasesOwnerActive)
 	c.Count("histories_pruned_noop_symbol", st.pruned)
+	c.Count("early_opened_successor_used", st.earlyUsed)
+	c.Count("early_opened_successor_mid_lease", st.earlyMidLease)
 	c.Count("nontrivial_runs", st.nontrivialRuns)
 	for k, v := range st.kinds {
 		c.Count("crash@"+k, v)
@@ -621,7 +708,7 @@ func longCase(c *vf.Ctx, idx int) (seqCase, *rand.Rand) {
 		case r < 7:
 			ops[i] = "R"
 		default:
-			ops[i] = alphabet[2+rng.Intn(6)] // a restart, a hand-back or a late Release
+			ops[i] = alphabet[2+rng.Intn(7)] // a restart, a hand-back, a late Release or an early-opened successor
 		}
 	}
 	return seqCase{Interval0: intervals[rng.Intn(4)], Ops: ops}, rng
@@ -635,6 +722,7 @@ func seqChild(c *vf.Ctx) {
 	resumeI, _ := strconv.Atoi(c.ChildArgs[2])
 	_, dblLen, triLen := seqBounds(c)
 	jobs := seqJobs(c)
+	childViols := 0
 	if k == 0 && resumeJ < 0 {
 		// named scenarios from the property text (also covered by the enumeration; kept as samples)
 		for _, cs := range []seqCase{
@@ -706,14 +794,21 @@ func seqChild(c *vf.Ctx) {
 		} else {
 			c.Count("histories_sampled_long", done)
 		}
+		childViols += len(st.viols)
 		mergeStats(c, st)
 		c.FlushStats() // what was observed so far survives a later death of this child
+		if childViols >= 150 {
+			// this chunk has already refuted the property many times over; further histories add nothing
+			c.Count("sequential_chunks_stopped_after_150_violations", 1)
+			c.FlushStats()
+			return
+		}
 	}
 }
 
 func sequentialPart(c *vf.Ctx) {
 	exhLen, dblLen, triLen := seqBounds(c)
-	c.Extra("exhaustive_bound", fmt.Sprintf("all histories over {Next, Release, Restart(1|2|3|7), Back-to-parked-object, Late-Release-on-parked-object} of length <= %d for every initial interval in {1,2,3,7}, each fault-free and with a crash before / a crash after / a store error at every store call; every pair of faults for length <= %d, every triple for length <= %d", exhLen, dblLen, triLen))
+	c.Extra("exhaustive_bound", fmt.Sprintf("all histories over {Next, Release, Restart(1|2|3|7), Back-to-parked-object, Late-Release-on-parked-object, Open-successor-early} of length <= %d for every initial interval in {1,2,3,7}, each fault-free and with a crash before / a crash after / a store error at every store call; every pair of faults for length <= %d, every triple for length <= %d", exhLen, dblLen, triLen))
 	vf.Parallel(seqChildren, runtime.NumCPU(), func(k int) {
 		resumeJ, resumeI := -1, -1
 		for deaths := 0; ; {
@@ -1063,6 +1158,7 @@ func run(c *vf.Ctx) {
 	c.Require("release_vs_next_overlaps", 1000)
 	c.Require("generations_on_reused_object", 10)
 	c.Require("late_release_calls_while_other_owner_holds_lease", 1000)
+	c.Require("early_opened_successor_used", 1000)
 	c.Require("runs_object_reused_after_release", 500)
 	c.Require("race_children", 1)
 	c.Assume("a crash of the owning process is modelled by a panic out of the store call followed by abandoning the Sequence object; mapdb applies Set atomically")
